@@ -1372,6 +1372,42 @@ fn gen_limits_repeated_values(out: &mut Out) {
     }
 }
 
+/// tables whose columns each take more than the 8 KiB a buffered container stream hands over at
+/// once (several thousand rows): filled in a few inserts, read whole and by key, changed, saved
+/// and read again
+fn gen_big_tables(out: &mut Out, rng: &mut Rng, sizes: &[usize]) {
+    for (si, &n) in sizes.iter().enumerate() {
+        out.req("new", format!("new {}", si % 3));
+        let t = hex_of_str("Big");
+        out.req("create_table", format!("create_table {t} {}:i32:K:-:-:-:- {}:i16:N:-:-:-:- {}:s0:N:-:-:-:-", hex_of_str("K"), hex_of_str("V"), hex_of_str("S")));
+        let texts = ["alpha", "beta", "gamma", "delta", "epsilon", "zeta", "eta"];
+        let mut k = 0usize;
+        let parts = 1 + rng.below(3) as usize;
+        for part in 0..parts {
+            let upto = if part + 1 == parts { n } else { n * (part + 1) / parts };
+            let mut vals = vec![];
+            let first = k;
+            while k < upto {
+                // keys in an order of their own: odd ones first, descending
+                vals.push(format!("3 I{} I{} S{}", (k * 7919) % 1_000_003, (k % 60000) as i64 - 30000, hex_of_str(texts[k % texts.len()])));
+                k += 1;
+            }
+            out.req("big_insert", format!("insert {t} {} {}", k - first, vals.join(" ")));
+        }
+        out.req("big_select", format!("select SEL 0 - T {t}"));
+        out.req("big_select", format!("select SEL 0 lt C{} I5000 T {t}", hex_of_str("K")));
+        out.req("snapshot", "snapshot".into());
+        out.req("reopen", format!("reopen {}", crate::hist::CLOSE_MODES[si % 3]));
+        out.req("big_select", format!("select SEL 0 - T {t}"));
+        out.req("big_update", format!("update {t} 1 {} I7 gt C{} I500000", hex_of_str("V"), hex_of_str("K")));
+        out.req("big_delete", format!("delete {t} lt C{} I250000", hex_of_str("K")));
+        out.req("big_select", format!("select SEL 0 - T {t}"));
+        out.req("snapshot", "snapshot".into());
+        out.req("reopen", format!("reopen {}", crate::hist::CLOSE_MODES[(si + 1) % 3]));
+        out.req("snapshot", "snapshot".into());
+    }
+}
+
 fn gen_hist_prop(prop: &str, out: &mut Out, rng: &mut Rng, thorough: bool) {
     use crate::hist::*;
     let mut cfg = HistCfg {
@@ -1382,6 +1418,7 @@ fn gen_hist_prop(prop: &str, out: &mut Out, rng: &mut Rng, thorough: bool) {
     };
     match prop {
         "C03" | "C05" => {
+            gen_big_tables(out, rng, if thorough { &[2100, 4200, 9000, 20000] } else { &[4200] });
             gen_exhaustive(out, if thorough { 4 } else { 3 }, thorough);
             gen_refs_up_directed(out, rng, if thorough { 300 } else { 24 });
             gen_pages_directed(out, rng, if thorough { 3 } else { 1 });
@@ -1391,6 +1428,7 @@ fn gen_hist_prop(prop: &str, out: &mut Out, rng: &mut Rng, thorough: bool) {
         }
         "C04" => {
             cfg.raw = false;
+            gen_foreign_edit_sessions(out, if thorough { 24 } else { 4 });
             gen_catalog_edits_directed(out, rng, if thorough { 200 } else { 16 });
             gen_signed_rejected_directed(out, rng, if thorough { 120 } else { 12 });
             gen_limits_repeated_values(out);
@@ -1893,6 +1931,22 @@ fn gen_c06(out: &mut Out, rng: &mut Rng, thorough: bool) {
         let toks: Vec<String> = cols.iter().map(|c| c.tok()).collect();
         out.req("create_table", format!("create_table {} {}", hex_of_str(&name), toks.join(" ")));
         out.req("snapshot", "snapshot".into());
+        if rng.chance(1, 6) {
+            // the same name released and taken again within the session: with the same columns,
+            // with the columns the other way round, or with one column only
+            out.req("drop_table", format!("drop_table {}", hex_of_str(&name)));
+            let again: Vec<String> = match rng.below(3) {
+                0 => toks.clone(),
+                1 => toks.iter().rev().cloned().collect(),
+                _ => toks[..1].to_vec(),
+            };
+            out.req("create_again", format!("create_table {} {}", hex_of_str(&name), again.join(" ")));
+            out.req("snapshot", "snapshot".into());
+            if rng.chance(1, 2) {
+                out.req("reopen", format!("reopen {}", rng.pick(&crate::hist::CLOSE_MODES)));
+                out.req("snapshot", "snapshot".into());
+            }
+        }
         if i % 40 == 39 || rng.chance(1, 10) {
             out.req("reopen", format!("reopen {}", rng.pick(&crate::hist::CLOSE_MODES)));
             out.req("snapshot", "snapshot".into());
@@ -2054,6 +2108,35 @@ fn gen_c16(out: &mut Out, rng: &mut Rng, thorough: bool) {
             out.req("ro_select", format!("select SEL 0 - T {}", hex_of_str("T")));
             out.req("ro_snapshot", "snapshot".into());
             out.req("readonly_close", format!("@readonly_close {mode}"));
+        }
+    }
+    // databases whose reference counts are not what their rows make them (another writer's own
+    // counting, or what a failed insert left behind): every count too high, an entry nobody
+    // refers to that is counted all the same, a text held in two entries
+    {
+        use crate::decode::*;
+        let summary = c09_bases()[0].iter().find(|(n, _)| n.starts_with('\u{5}')).unwrap().clone();
+        for case in 0..(if thorough { 12 } else { 6 }) {
+            let mut k = ColDef::new("K", CT::Str(8));
+            k.key = true;
+            let mut v = ColDef::new("V", CT::Str(0));
+            v.nullable = true;
+            let t = EncTable { name: "T".into(), cols: vec![k, v], rows: vec![vec![V::Str("a".into()), V::Str("shared".into())], vec![V::Str("b".into()), V::Str("shared".into())], vec![V::Str("c".into()), V::Null]] };
+            let layout = EncLayout {
+                long_refs: case % 2 == 1, cp_id: 65001,
+                filler: if case % 3 == 0 { vec![("leaked by a failed insert".into(), 2)] } else if case % 3 == 1 { vec![("unused".into(), 0), ("counted".into(), 1)] } else { vec![] },
+                overcount: [0u16, 1, 3][(case / 2) % 3], duplicate: case % 4 == 3, with_validation: case % 2 == 0, reverse_rows: false, int16_size: 2,
+            };
+            let mut e = encode_db(&layout, &[t]);
+            e.push(summary.clone());
+            for mode in crate::hist::CLOSE_MODES {
+                for ff in ["", "ff:"] {
+                    out.req("load_miscounted", format!("load 0 {}", entries_tok(&e)));
+                    out.req("ro_select", format!("select SEL 0 - T {}", hex_of_str("T")));
+                    out.req("ro_snapshot", "snapshot".into());
+                    out.req("readonly_close", format!("@readonly_close {ff}{mode}"));
+                }
+            }
         }
     }
     let cfg = crate::hist::HistCfg {
@@ -2526,6 +2609,8 @@ fn gen_c09(out: &mut Out, rng: &mut Rng, thorough: bool) {
         out.req("battery", "reopen into_inner".into());
         out.req("battery", "snapshot".into());
     };
+    // long use of one text: two full tables holding it in every row
+    out.req("two_full_tables", "@two_full_tables".into());
     // the uncorrupted bases first
     for b in &bases {
         out.req("load_valid", format!("load 0 {}", entries_tok(b)));
@@ -2681,8 +2766,66 @@ fn gen_foreign_key_selects(out: &mut Out, n: usize) {
     }
 }
 
+/// databases of another writer as they are commonly stored: an empty table has no stream at all,
+/// `_Validation` declares its name columns 32 wide.  Edited like any other database: deletes that
+/// match nothing, a table emptied twice and filled again over sessions, tables created whose
+/// names are longer than `_Validation` admits (refused with nothing changed)
+fn gen_foreign_edit_sessions(out: &mut Out, n: usize) {
+    use crate::decode::*;
+    for case in 0..n {
+        let mut k = ColDef::new("K", CT::I16);
+        k.key = true;
+        let mut v = ColDef::new("V", CT::Str(0));
+        v.nullable = true;
+        let item = EncTable { name: "Item".into(), cols: vec![k.clone(), v.clone()], rows: vec![vec![V::Int(1), V::Str("one".into())], vec![V::Int(2), V::Null]] };
+        let empty = EncTable { name: "Empty".into(), cols: vec![k.clone(), v.clone()], rows: vec![] };
+        let layout = EncLayout { long_refs: case % 2 == 1, cp_id: 65001, filler: if case % 3 == 1 { vec![("hole".into(), 0)] } else { vec![] }, overcount: (case % 2) as u16, duplicate: false, with_validation: case % 4 != 3, reverse_rows: true, int16_size: 2 };
+        let mut entries = encode_db(&layout, &[item.clone(), empty.clone()]);
+        // the empty table is stored without a stream
+        let packed = pack_name("Empty", true);
+        entries.retain(|e| e.0 != packed);
+        let props: Vec<(u32, PVal)> = vec![(1, PVal::I2(65001u16 as i16)), (2, PVal::Str(b"Installation Database".to_vec()))];
+        let pl = PropLayout { version: 0, os: 2, os_version: 10, section_gap: 0, table_order: vec![0, 1], value_order: vec![0, 1], gaps: vec![0, 0] };
+        entries.push(("\u{5}SummaryInformation".to_string(), write_propset(&props, &pl)));
+        out.req("load", format!("load {} {}", case % 3, entries_tok(&entries)));
+        out.req("snapshot", "snapshot".into());
+        let (e, it, kc) = (hex_of_str("Empty"), hex_of_str("Item"), hex_of_str("K"));
+        out.req("foreign_edit", format!("select SEL 0 - T {e}"));
+        out.req("foreign_edit", format!("delete {e} eq C{kc} I1"));
+        out.req("foreign_edit", format!("delete {e} -"));
+        out.req("foreign_edit", format!("update {e} 1 {} S78 -", hex_of_str("V")));
+        out.req("snapshot", "snapshot".into());
+        out.req("foreign_edit", format!("insert {e} 2 2 I5 S66697665 2 I3 N"));
+        out.req("foreign_edit", format!("delete {e} -"));
+        out.req("foreign_edit", format!("delete {e} -"));
+        out.req("foreign_edit", format!("delete {it} -"));
+        out.req("foreign_edit", format!("delete {it} gt C{kc} I0"));
+        out.req("snapshot", "snapshot".into());
+        out.req("reopen", format!("reopen {}", crate::hist::CLOSE_MODES[case % 3]));
+        out.req("snapshot", "snapshot".into());
+        out.req("foreign_edit", format!("delete {e} -"));
+        out.req("foreign_edit", format!("delete {it} eq C{kc} I9"));
+        out.req("foreign_edit", format!("insert {e} 1 2 I7 S736576656e"));
+        out.req("foreign_edit", format!("insert {it} 1 2 I7 N"));
+        out.req("snapshot", "snapshot".into());
+        // names beyond what `_Validation` of this file admits (32), within what `_Tables` and
+        // `_Columns` admit (64), and beyond both
+        for (ti, len) in [33usize, 64, 65, 32].iter().enumerate() {
+            let tname = format!("L{}", "t".repeat(len - 1));
+            out.req("foreign_long_name", format!("create_table {} 4b:i16:K:-:-:-:-", hex_of_str(&tname)));
+            out.req("snapshot", "snapshot".into());
+            let cname = format!("c{}", "n".repeat(len - 1));
+            out.req("foreign_long_name", format!("create_table {} 4b:i16:K:-:-:-:- {}:s8:N:-:-:-:-", hex_of_str(&format!("W{ti}")), hex_of_str(&cname)));
+            out.req("snapshot", "snapshot".into());
+        }
+        out.req("reopen", format!("reopen {}", crate::hist::CLOSE_MODES[(case + 1) % 3]));
+        out.req("snapshot", "snapshot".into());
+    }
+}
+
 fn gen_c02(out: &mut Out, rng: &mut Rng, thorough: bool) {
     gen_foreign_key_selects(out, if thorough { 12 } else { 3 });
+    gen_foreign_edit_sessions(out, if thorough { 24 } else { 4 });
     use crate::decode::*;
     use crate::exec::ALL_CP;
     // the database code page is changed on a file whose summary uses the same page and holds text
